@@ -76,6 +76,11 @@ type roomSt struct {
 	lateConfirmed  bool
 
 	queried []bool // Joined() answers that were checked, in order
+
+	// channel objects of this room that the application has replaced by a new
+	// Client.Join; each was not joined when it was replaced and no call has been
+	// made on it since, so it stays not joined whatever its successor does
+	replaced []*muc.Channel
 }
 
 type call struct {
@@ -587,7 +592,11 @@ func (e *env) join(r *roomSt, s joinSpec) bool {
 		e.t.Fatalf("harness: unknown join form %q", s.how)
 	}
 	if client {
-		// the application drops the old channel object
+		// the application drops the old channel object (a channel whose Leave
+		// was answered with an error is in an undetermined state and not kept)
+		if r.ch != nil && !r.unknown && !r.joined {
+			r.replaced = append(r.replaced, r.ch)
+		}
 		r.ch = nil
 		r.unknown = false
 		r.joined = false
@@ -798,6 +807,18 @@ func (e *env) settle() bool {
 		e.failf("panic in the serve goroutine: %s", p)
 	}
 	for _, r := range e.rooms {
+		for i, old := range r.replaced {
+			var got bool
+			if p := ev.Guard(func() { got = old.Joined() }); p != "" {
+				e.failf("Joined() panicked: %s", p)
+			}
+			if got {
+				e.failf("room %s: channel object number %d of this room, which was not joined when the application replaced it by a new Client.Join and has not been used since, reports Joined() = true", r.bare, i)
+			}
+		}
+		if len(r.replaced) > 0 {
+			ev.Class("replaced-channel-object-queried")
+		}
 		if r.ch == nil || r.unknown {
 			continue
 		}
